@@ -433,19 +433,15 @@ func show(s map[uint64]bool) string {
 }
 
 // sharing returns the ids of all sessions that share at least one channel with
-// the session owning lower-case nick n in view v, plus the owner.
+// session s in view v, plus s itself. Membership is what the *channels* list
+// (the session's own list of channels is not trusted: a stale entry there must
+// not widen the set of entitled recipients).
 func sharing(v *verifview.View, s *verifview.Session) map[uint64]bool {
 	out := map[uint64]bool{}
 	if s == nil {
 		return out
 	}
 	out[s.Id.Id] = true
-	for _, c := range s.Channels {
-		for k := range idsOfMembers(v, v.Channel(c)) {
-			out[k] = true
-		}
-	}
-	// also channels that list the nick although the session does not (defensive)
 	for i := range v.Channels {
 		if v.Channels[i].Member(Fold(s.Nick)) != nil {
 			for k := range idsOfMembers(v, &v.Channels[i]) {
